@@ -42,17 +42,21 @@ def main():
         quads = [[rng.randrange(M) for _ in range(4)] for _ in range(3)] + [[0, M - 1, M - 1, 0]]
         susq = [[0, 0, M - 1, M - 1], [0, M - 1, M - 1, 0]]
         for b in betas:
-            for eps in (EPS if thorough else rng.sample(EPS[1:], 2) + ["0"]):
+            # a HISTORY of truncations on the same density matrix: tolerances in arbitrary order (decreasing steps included), ending with 0
+            seqs = [rng.sample(EPS[1:], 2) + ["0"], ["1e-2", "1e-6", "1e-12"]] if not thorough else [EPS[::-1], rng.sample(EPS, 3), ["1e-2", "1e-12", "1e-3", "0"]]
+            for si, seq in enumerate(seqs if (thorough or b != betas[0]) else seqs[:1]):
                 obsq = [{"q": "gf", "beta": b, "pairs": pairs, "ns": NS, "zs": [["0.5", "0.9"]]},
                         {"q": "chi", "beta": b, "quads": quads, "triples": tri, "tables": False},
                         {"q": "sus", "beta": b, "quads": susq, "ns": [0, 1, -1]},
                         {"q": "dm", "beta": b},
                         {"q": "parts", "beta": b, "pairs": pairs, "quads": quads, "sus": susq}]
-                qs = [dict(q, tag="full") for q in obsq] + [{"q": "truncate", "beta": b, "eps": eps, "tag": "trunc"}] + [dict(q, tag="cut") for q in obsq]
+                qs = [dict(q, tag="full") for q in obsq]
+                for k, eps in enumerate(seq):
+                    qs += [{"q": "truncate", "beta": b, "eps": eps, "tag": "trunc%d" % k}] + [dict(q, tag="cut%d" % k) for q in obsq]
                 s = dict(m)
-                s["id"] = "%s|b=%s|eps=%s" % (m["id"], b, eps)
+                s["id"] = "%s|b=%s|eps=%s" % (m["id"], b, ">".join(seq))
                 s["queries"] = qs
-                s["_beta"], s["_eps"], s["_M"] = b, eps, M
+                s["_beta"], s["_seq"], s["_M"] = b, seq, M
                 scen.append(s)
     recs, crashed = pv.run_driver_resilient(exe, [{k: v for k, v in s.items() if not k.startswith("_")} for s in scen], timeout=3000)
     byid = {}
@@ -71,60 +75,66 @@ def main():
             c.violation("%s failed: %s" % (s["id"], [r.get("fail") or r.get("ex") for r in rs if "fail" in r or "ex" in r][:2]), rep, cls="exception")
             continue
         get = lambda q, tag: [r for r in rs if r["q"] == q and r.get("tag") == tag][0]
-        eps, beta, M = float(s["_eps"]), float(s["_beta"]), s["_M"]
+        beta, M = float(s["_beta"]), s["_M"]
         dim = 2 ** M
-        tr = get("truncate", "trunc")
-        above = [float(x) > eps for x in tr["maxw"]]
-        pf, pc = get("parts", "full"), get("parts", "cut")
-        obs_ev = []
-        for key, nb in (("gf", 2), ("chi", 4), ("sus", 2)):
-            for a, b in zip(pf[key], pc[key]):
-                obs_ev.append({"name": "%s%s" % (key, a.get("ij") or a.get("q")), "nb": nb, "full": a["parts"], "cut": b["parts"]})
-        events.append({"e": "Trunc", "id": s["id"], "retained": tr["retained"], "above": above, "obs": obs_ev})
-        info.append(rep)
-        if not all(tr["retained"]):
-            c.nontriv(s["id"])
-        # (3) values
-        bad = None
-        gf_f, gf_c = get("gf", "full"), get("gf", "cut")
-        for a, b in zip(gf_f["gf"], gf_c["gf"]):
-            for grp in ("n", "z"):
-                for (x, va), (_, vb) in zip(a[grp], b[grp]):
-                    imz = abs((2 * x + 1) * 3.141592653589793 / beta) if grp == "n" else abs(float(x[1]))
+        all_ok = True
+        for k, eps_s in enumerate(s["_seq"]):
+            eps = float(eps_s)
+            tr = get("truncate", "trunc%d" % k)
+            above = [float(x) > eps for x in tr["maxw"]]
+            pf, pc = get("parts", "full"), get("parts", "cut%d" % k)
+            obs_ev = []
+            for key, nb in (("gf", 2), ("chi", 4), ("sus", 2)):
+                for a, b in zip(pf[key], pc[key]):
+                    obs_ev.append({"name": "%s%s" % (key, a.get("ij") or a.get("q")), "nb": nb, "full": a["parts"], "cut": b["parts"]})
+            events.append({"e": "Trunc", "id": s["id"], "step": k, "eps": eps_s, "retained": tr["retained"], "above": above, "obs": obs_ev})
+            info.append(rep)
+            if not all(tr["retained"]):
+                c.nontriv("%s#%d" % (s["id"], k))
+            # (3) values
+            bad = None
+            cut = "cut%d" % k
+            gf_f, gf_c = get("gf", "full"), get("gf", cut)
+            for a, b in zip(gf_f["gf"], gf_c["gf"]):
+                for grp in ("n", "z"):
+                    for (x, va), (_, vb) in zip(a[grp], b[grp]):
+                        imz = abs((2 * x + 1) * 3.141592653589793 / beta) if grp == "n" else abs(float(x[1]))
+                        d = abs(cplx(va) - cplx(vb))
+                        if eps == 0 and va != vb:
+                            bad = "eps = 0 changed G_%d%d(%s): %s -> %s" % (a["i"], a["j"], x, va, vb)
+                        elif d > 2 * eps * dim / imz + 1e-12:
+                            bad = "|G_trunc - G| = %g for G_%d%d(%s) exceeds 2 eps dim / |Im z| = %g" % (d, a["i"], a["j"], x, 2 * eps * dim / imz)
+            ch_f, ch_c = get("chi", "full"), get("chi", cut)
+            for a, b in zip(ch_f["chi"], ch_c["chi"]):
+                for t, va, vb in zip(tri, a["ondemand"], b["ondemand"]):
                     d = abs(cplx(va) - cplx(vb))
                     if eps == 0 and va != vb:
-                        bad = "eps = 0 changed G_%d%d(%s): %s -> %s" % (a["i"], a["j"], x, va, vb)
-                    elif d > 2 * eps * dim / imz + 1e-12:
-                        bad = "|G_trunc - G| = %g for G_%d%d(%s) exceeds 2 eps dim / |Im z| = %g" % (d, a["i"], a["j"], x, 2 * eps * dim / imz)
-        ch_f, ch_c = get("chi", "full"), get("chi", "cut")
-        for a, b in zip(ch_f["chi"], ch_c["chi"]):
-            for t, va, vb in zip(tri, a["ondemand"], b["ondemand"]):
+                        bad = "eps = 0 changed chi_%s%s: %s -> %s" % (a["q"], t, va, vb)
+                    elif d > eps * dim * (beta ** 3 + 1) + 1e-12:
+                        bad = "|chi_trunc - chi| = %g for %s%s exceeds eps dim beta^3 = %g" % (d, a["q"], t, eps * dim * beta ** 3)
+            su_f, su_c = get("sus", "full"), get("sus", cut)
+            for a, b in zip(su_f["sus"], su_c["sus"]):
+                for (n, va), (_, vb) in zip(a["plain"]["n"], b["plain"]["n"]):
+                    d = abs(cplx(va) - cplx(vb))
+                    bound = 2 * eps * dim * max(beta, beta / (2 * 3.141592653589793 * abs(n)) if n else beta)
+                    if eps == 0 and va != vb:
+                        bad = "eps = 0 changed the susceptibility %s at W_%d" % (a["q"], n)
+                    elif d > bound + 1e-12:
+                        bad = "|sus_trunc - sus| = %g for %s at W_%d exceeds %g" % (d, a["q"], n, bound)
+            dm_f, dm_c = get("dm", "full"), get("dm", cut)
+            for (i, j, va), (_, _, vb) in zip(dm_f["avg"], dm_c["avg"]):
                 d = abs(cplx(va) - cplx(vb))
                 if eps == 0 and va != vb:
-                    bad = "eps = 0 changed chi_%s%s: %s -> %s" % (a["q"], t, va, vb)
-                elif d > eps * dim * (beta ** 3 + 1) + 1e-12:
-                    bad = "|chi_trunc - chi| = %g for %s%s exceeds eps dim beta^3 = %g" % (d, a["q"], t, eps * dim * beta ** 3)
-        su_f, su_c = get("sus", "full"), get("sus", "cut")
-        for a, b in zip(su_f["sus"], su_c["sus"]):
-            for (n, va), (_, vb) in zip(a["plain"]["n"], b["plain"]["n"]):
-                d = abs(cplx(va) - cplx(vb))
-                bound = 2 * eps * dim * max(beta, beta / (2 * 3.141592653589793 * abs(n)) if n else beta)
-                if eps == 0 and va != vb:
-                    bad = "eps = 0 changed the susceptibility %s at W_%d" % (a["q"], n)
-                elif d > bound + 1e-12:
-                    bad = "|sus_trunc - sus| = %g for %s at W_%d exceeds %g" % (d, a["q"], n, bound)
-        dm_f, dm_c = get("dm", "full"), get("dm", "cut")
-        for (i, j, va), (_, _, vb) in zip(dm_f["avg"], dm_c["avg"]):
-            d = abs(cplx(va) - cplx(vb))
-            if eps == 0 and va != vb:
-                bad = "eps = 0 changed <c+_%d c_%d>" % (i, j)
-            elif d > eps * dim + 1e-13:
-                bad = "|avg_trunc - avg| = %g for <c+_%d c_%d> exceeds eps dim = %g" % (d, i, j, eps * dim)
-        if bad:
-            c.violation("%s: %s" % (s["id"], bad), rep, cls="value")
-        else:
+                    bad = "eps = 0 changed <c+_%d c_%d>" % (i, j)
+                elif d > eps * dim + 1e-13:
+                    bad = "|avg_trunc - avg| = %g for <c+_%d c_%d> exceeds eps dim = %g" % (d, i, j, eps * dim)
+            if bad:
+                c.violation("%s: after truncation step %d (eps = %s): %s" % (s["id"], k, eps_s, bad), rep, cls="value")
+                all_ok = False
+                break
+        if all_ok:
             c.traces += 1
-    c.sample({"model": base[1]["build"], "beta": "8.0", "eps": "1e-3"})
+    c.sample({"model": base[1]["build"], "beta": "8.0", "eps_history": ["1e-2", "1e-6", "1e-12"]})
     pos, guard = 0, 0
     while pos < len(events) and guard < 60:
         guard += 1
@@ -137,7 +147,7 @@ def main():
         if v.accepted:
             break
         bad = events[pos + v.matched]
-        c.violation("%s: retain flags %s (largest weight above eps: %s) or the selection of world stripes do not follow the truncation rule" % (bad["id"], bad["retained"], bad["above"]),
+        c.violation("%s: after truncation step %d (eps = %s) the retain flags %s (largest weight above eps: %s) or the selection of world stripes do not follow the truncation rule" % (bad["id"], bad["step"], bad["eps"], bad["retained"], bad["above"]),
                     info[pos + v.matched], cls="selection")
         pos += v.matched + 1
     c.rule = "%d models x %d betas x eps values (always incl. 0): flags, stripes of 16 G components / 4 chi / 2 susceptibilities before and after; values against the bounds; non-trivial = (model, beta, eps) with at least one discarded block" % (len(base), len(betas))
